@@ -33,7 +33,14 @@ def clause_a(facts, rep):
     rep.require(len(ss) == 1, 'C05.a: kEscapedMap not found')
     if ss:
         s = ss[0]
-        check_rows(rep, 'E5.table', s['qn'], 'kEscapedMap', locline(s['loc']), arr(s['value']), [ESC.get(b, 0) for b in range(256)], facts.config,
+        got = arr(s['value'])
+        want = [ESC.get(b, 0) for b in range(256)]
+        if 0x75 < len(got) < 256:
+            # a shorter table is a representation choice (the readers may range-check): the rows present are compared, what the
+            # readers do with every byte value after a backslash is decided by E5.string-decode (all 256 values, both kernels)
+            rep.notes.append('kEscapedMap has %d rows: rows compared, the treatment of the other byte values is decided by E5.string-decode' % len(got))
+            want = want[:len(got)]
+        check_rows(rep, 'E5.table', s['qn'], 'kEscapedMap', locline(s['loc']), got, want, facts.config,
                    'the eight two-character escapes, 0 elsewhere (incl. u)')
     ss = find_static(facts, name='digit_to_val32')
     rep.require(len(ss) == 1, 'C05.a: digit_to_val32 not found')
